@@ -9,11 +9,18 @@ package header
 
 // ---- contract vocabulary (evaluated symbolically by govc, never executed) ----
 
-func old[T any](x T) T                                  { return x }
-func implies(a, b bool) bool                            { return !a || b }
-func forall[T any](f func(T) bool) bool                 { return true }
-func elems[T any](s []T, r ...int) bool                 { return true }
-func sliceIs[T any](s, base []T, lo, hi, max int) bool  { return true }
+func old[T any](x T) T                  { return x }
+func implies(a, b bool) bool            { return !a || b }
+func forall[T any](f func(T) bool) bool { return true }
+func elems[T any](s []T, r ...int) bool { return true }
+
+// sliceIs(s, base, lo, hi, max): s is exactly base[lo:hi:max].
+func sliceIs[T any](s, base []T, lo, hi, max int) bool {
+	if len(s) != hi-lo || cap(s) != max-lo {
+		return false
+	}
+	return cap(s) == 0 || &s[:1][0] == &base[:cap(base)][lo]
+}
 
 //@ func Encode
 //@   props C47
